@@ -1,7 +1,12 @@
 /-
   M14: a reference semantics of structured QBASIC statements over INTEGER variables (the language definition, written
   independently of the compiler): assignment, PRINT, block IF, WHILE, DO ... LOOP with WHILE / UNTIL at either end,
-  FOR ... NEXT with STEP, EXIT DO / EXIT FOR (innermost enclosing loop of that kind), SELECT CASE, END.
+  FOR ... NEXT with STEP, EXIT DO / EXIT FOR (innermost enclosing loop of that kind), SELECT CASE, END, and procedures:
+  CALL of a SUB with INTEGER parameters (a variable is passed by reference, any other expression by value), fresh locals per
+  activation, recursion, EXIT SUB.
+  Parameter passing is specified as copy-in / copy-out; for calls in which no variable is passed by reference twice (`NoAlias`,
+  the calls the correspondence generates) this is what references mean.  The machine's actual binding of references and
+  temporaries is Model/Layout.lean (`bindParams`).
   Conditions: zero is false, anything else true.  INTEGER arithmetic traps on overflow and on division by zero.
   `fuel` bounds the number of loop iterations and statement steps; `none` = out of fuel (no claim).
 -/
@@ -25,6 +30,12 @@ inductive Clause where
   | isLt (e : Expr) | isGt (e : Expr)
   deriving Repr
 
+/-- an argument of a CALL -/
+inductive Arg where
+  | ref (v : Nat)        -- a variable: the parameter names the caller's variable
+  | val (e : Expr)       -- any other expression (a parenthesised variable too): the parameter is a copy
+  deriving Repr
+
 inductive Stmt where
   | assign (v : Nat) (e : Expr)
   | print (e : Expr)
@@ -34,10 +45,19 @@ inductive Stmt where
   | for (v : Nat) (a b s : Expr) (body : List Stmt)
   | select (e : Expr) (cases : List (List Clause × List Stmt)) (dflt : List Stmt)
   | exitDo | exitFor | end_
+  | call (p : Nat) (args : List Arg)
+  | exitSub
+  deriving Repr
+
+/-- SUB p (parameters are variables 0 .. nparams-1 of its frame, locals follow) -/
+structure Proc where
+  nparams : Nat
+  nlocals : Nat
+  body : List Stmt
   deriving Repr
 
 inductive Sig where
-  | normal | exitDo | exitFor | ended | trap (code : String)
+  | normal | exitDo | exitFor | ended | trap (code : String) | exitSub
   deriving Repr, DecidableEq
 
 abbrev Env := List Int
@@ -91,19 +111,40 @@ def anyHit (env : Env) (v : Int) : List Clause → Except String Bool
   | [] => .ok false
   | c :: r => do let h ← clauseHit env v c; if h then pure true else anyHit env v r
 
+/-- argument values, left to right (a by-value argument may fail) -/
+def evalArgs (env : Env) : List Arg → Except String (List Int)
+  | [] => .ok []
+  | .ref v :: r => do let vs ← evalArgs env r; pure (getVar env v :: vs)
+  | .val e :: r => do let x ← eval env e; let vs ← evalArgs env r; pure (x :: vs)
+
+/-- what the callee left in its parameters goes back to the variables that were passed by reference -/
+def copyOut (env : Env) : List Arg → Env → Nat → Env
+  | [], _, _ => env
+  | .ref v :: r, cenv, i => copyOut (setVar env v (getVar cenv i)) r cenv (i + 1)
+  | .val _ :: r, cenv, i => copyOut env r cenv (i + 1)
+
+/-- the variables a call passes by reference -/
+def refsOf : List Arg → List Nat
+  | [] => []
+  | .ref v :: r => v :: refsOf r
+  | .val _ :: r => refsOf r
+
+/-- no variable is passed by reference twice in one call -/
+def NoAlias (args : List Arg) : Prop := (refsOf args).Nodup
+
 mutual
 /-- statements in sequence; stops at the first signal that is not `normal` -/
-def execList (fuel : Nat) (env : Env) (out : List Int) : List Stmt → Option Res
+def execList (procs : List Proc) (fuel : Nat) (env : Env) (out : List Int) : List Stmt → Option Res
   | [] => some ⟨env, out, .normal⟩
   | s :: r =>
     match fuel with
     | 0 => none
     | fuel + 1 =>
-      match exec fuel env out s with
+      match exec procs fuel env out s with
       | none => none
-      | some res => if res.sig = .normal then execList fuel res.env res.out r else some res
+      | some res => if res.sig = .normal then execList procs fuel res.env res.out r else some res
 
-def exec (fuel : Nat) (env : Env) (out : List Int) : Stmt → Option Res
+def exec (procs : List Proc) (fuel : Nat) (env : Env) (out : List Int) : Stmt → Option Res
   | .assign v e =>
     match eval env e with
     | .ok x => some ⟨setVar env v x, out, .normal⟩
@@ -114,34 +155,50 @@ def exec (fuel : Nat) (env : Env) (out : List Int) : Stmt → Option Res
     | .error c => some ⟨env, out, .trap c⟩
   | .ifElse c t e =>
     match eval env c with
-    | .ok x => if x ≠ 0 then execList fuel env out t else execList fuel env out e
+    | .ok x => if x ≠ 0 then execList procs fuel env out t else execList procs fuel env out e
     | .error c => some ⟨env, out, .trap c⟩
-  | .while c body => loopWhile fuel env out c body
-  | .doLoop pk pre qk post body => loopDo fuel env out pk pre qk post body
+  | .while c body => loopWhile procs fuel env out c body
+  | .doLoop pk pre qk post body => loopDo procs fuel env out pk pre qk post body
   | .for v a b s body =>
     -- step, start and limit are evaluated once
     match eval env s, eval env a, eval env b with
-    | .ok st, .ok x, .ok lim => loopFor fuel (setVar env v x) out v lim st body
+    | .ok st, .ok x, .ok lim => loopFor procs fuel (setVar env v x) out v lim st body
     | .error c, _, _ => some ⟨env, out, .trap c⟩
     | _, .error c, _ => some ⟨env, out, .trap c⟩
     | _, _, .error c => some ⟨env, out, .trap c⟩
   | .select e cases dflt =>
     match eval env e with
-    | .ok v => selectRun fuel env out v cases dflt
+    | .ok v => selectRun procs fuel env out v cases dflt
     | .error c => some ⟨env, out, .trap c⟩
   | .exitDo => some ⟨env, out, .exitDo⟩
   | .exitFor => some ⟨env, out, .exitFor⟩
   | .end_ => some ⟨env, out, .ended⟩
+  | .exitSub => some ⟨env, out, .exitSub⟩
+  | .call p args =>
+    match procs[p]? with
+    | none => some ⟨env, out, .trap "NO_SUCH_PROCEDURE"⟩            -- rejected at compile time
+    | some pr =>
+      if args.length ≠ pr.nparams then some ⟨env, out, .trap "ARGUMENT_COUNT"⟩   -- rejected at compile time
+      else match evalArgs env args with
+        | .error c => some ⟨env, out, .trap c⟩
+        | .ok vals =>
+          -- a fresh frame: the argument values, then locals that read 0
+          match execList procs fuel (vals ++ List.replicate pr.nlocals 0) out pr.body with
+          | none => none
+          | some res =>
+            -- END inside a procedure ends the program, an error stays an error; EXIT SUB and the end of the body return
+            some ⟨copyOut env args res.env 0, res.out,
+                  if res.sig = .exitSub then .normal else res.sig⟩
 
-def selectRun (fuel : Nat) (env : Env) (out : List Int) (v : Int) : List (List Clause × List Stmt) → List Stmt → Option Res
-  | [], dflt => execList fuel env out dflt
+def selectRun (procs : List Proc) (fuel : Nat) (env : Env) (out : List Int) (v : Int) : List (List Clause × List Stmt) → List Stmt → Option Res
+  | [], dflt => execList procs fuel env out dflt
   | (cl, body) :: r, dflt =>
     match anyHit env v cl with
-    | .ok true => execList fuel env out body
-    | .ok false => match fuel with | 0 => none | fuel + 1 => selectRun fuel env out v r dflt
+    | .ok true => execList procs fuel env out body
+    | .ok false => match fuel with | 0 => none | fuel + 1 => selectRun procs fuel env out v r dflt
     | .error c => some ⟨env, out, .trap c⟩
 
-def loopWhile (fuel : Nat) (env : Env) (out : List Int) (c : Expr) (body : List Stmt) : Option Res :=
+def loopWhile (procs : List Proc) (fuel : Nat) (env : Env) (out : List Int) (c : Expr) (body : List Stmt) : Option Res :=
   match fuel with
   | 0 => none
   | fuel + 1 =>
@@ -149,13 +206,13 @@ def loopWhile (fuel : Nat) (env : Env) (out : List Int) (c : Expr) (body : List 
     | .error e => some ⟨env, out, .trap e⟩
     | .ok x =>
       if x = 0 then some ⟨env, out, .normal⟩
-      else match execList fuel env out body with
+      else match execList procs fuel env out body with
         | none => none
-        | some res => if res.sig = .normal then loopWhile fuel res.env res.out c body else some res   -- EXIT DO / FOR pass through a WHILE
+        | some res => if res.sig = .normal then loopWhile procs fuel res.env res.out c body else some res   -- EXIT DO / FOR pass through a WHILE
 
 def condHolds (kind : Nat) (x : Int) : Bool := if kind = 1 then decide (x ≠ 0) else decide (x = 0)    -- WHILE x / UNTIL x: go on?
 
-def loopDo (fuel : Nat) (env : Env) (out : List Int) (pk : Nat) (pre : Expr) (qk : Nat) (post : Expr) (body : List Stmt) : Option Res :=
+def loopDo (procs : List Proc) (fuel : Nat) (env : Env) (out : List Int) (pk : Nat) (pre : Expr) (qk : Nat) (post : Expr) (body : List Stmt) : Option Res :=
   match fuel with
   | 0 => none
   | fuel + 1 =>
@@ -164,7 +221,7 @@ def loopDo (fuel : Nat) (env : Env) (out : List Int) (pk : Nat) (pre : Expr) (qk
     | .error e => some ⟨env, out, .trap e⟩
     | .ok false => some ⟨env, out, .normal⟩
     | .ok true =>
-      match execList fuel env out body with
+      match execList procs fuel env out body with
       | none => none
       | some res =>
         if res.sig = .exitDo then some ⟨res.env, res.out, .normal⟩          -- EXIT DO leaves exactly this loop
@@ -174,26 +231,27 @@ def loopDo (fuel : Nat) (env : Env) (out : List Int) (pk : Nat) (pre : Expr) (qk
           match again with
           | .error e => some ⟨res.env, res.out, .trap e⟩
           | .ok false => some ⟨res.env, res.out, .normal⟩
-          | .ok true => loopDo fuel res.env res.out pk pre qk post body
+          | .ok true => loopDo procs fuel res.env res.out pk pre qk post body
 
-def loopFor (fuel : Nat) (env : Env) (out : List Int) (v : Nat) (lim st : Int) (body : List Stmt) : Option Res :=
+def loopFor (procs : List Proc) (fuel : Nat) (env : Env) (out : List Int) (v : Nat) (lim st : Int) (body : List Stmt) : Option Res :=
   match fuel with
   | 0 => none
   | fuel + 1 =>
     let x := getVar env v
     if (st ≥ 0 && x > lim) || (st < 0 && x < lim) then some ⟨env, out, .normal⟩
-    else match execList fuel env out body with
+    else match execList procs fuel env out body with
       | none => none
       | some res =>
         if res.sig = .exitFor then some ⟨res.env, res.out, .normal⟩         -- EXIT FOR leaves exactly this loop
         else if res.sig ≠ .normal then some res
         else
           let nx := getVar res.env v + st
-          if inInt nx then loopFor fuel (setVar res.env v nx) res.out v lim st body
+          if inInt nx then loopFor procs fuel (setVar res.env v nx) res.out v lim st body
           else some ⟨res.env, res.out, .trap "INVALID_CELL_VALUE"⟩
 end
 
 /-- a whole program: EXIT outside its loop cannot occur (rejected at compile time) -/
-def run (fuel : Nat) (nvars : Nat) (prog : List Stmt) : Option Res := execList fuel (List.replicate nvars 0) [] prog
+def run (procs : List Proc) (fuel : Nat) (nvars : Nat) (prog : List Stmt) : Option Res :=
+  execList procs fuel (List.replicate nvars 0) [] prog
 
 end Qbee.Src
